@@ -323,6 +323,10 @@ def check(ctx):
     from ..report import Renamed
     ctx.rule('R8', 'flatten (grouping of a tuple of dimensions): contiguity guard, shared insertion point, C-order reshape', 2)
     c11.rule_flatten(Renamed(ctx, {'*': 'R8'}))
+    # a tuple / list of dimensions given to a transform is grouped by _deal_with_axis in the listed order (shared with C08)
+    from . import c08 as _c08
+    from ..report import Renamed as _Ren2
+    _c08.rule_deal_with_axis(_Ren2(ctx, {'*': 'R6'}))
     ctx.not_decided += ["tie and NaN behaviour of NumPy's argmin/argmax", 'numerical differences', 'np.diff semantics']
     ctx.trusted += ['np.diff / np.concatenate / np.unravel_index semantics']
     return EXPLANATION
